@@ -73,13 +73,14 @@ struct W2Plan {
     int64_t getifaddrs_fail_from = -1; // getifaddrs calls with index >= this fail
     std::string hostname = "host";
     std::string expect_class;
+    int ghosts = 0;              // address-less entries in the getifaddrs list (tun0, wg0: links without a hardware address have ifa_addr == NULL), at seeded positions
     int repeat = 1;              // the event history is played this many times in a row, then every interface receives a topology Reset (retained-memory oracle)
 };
 static std::string w2plan_to_text(const W2Plan &p) {
     std::ostringstream s;
     s << "w2plan v1\nprop " << p.prop << "\nfamily " << p.family << "\nseed " << p.seed << "\nt0 " << p.t0 << "\np_call " << p.p_call << "\np_mem " << p.p_mem
       << "\npct " << p.pct_thread << " " << p.pct_access << "\nmalloc_fail_at " << p.malloc_fail_at << "\nsendfail_mask " << p.sendfail_mask << "\nsend_short " << p.send_short
-      << "\ngetifaddrs_fail_from " << p.getifaddrs_fail_from << "\nhostname " << hex((const uint8_t *)p.hostname.data(), p.hostname.size()) << "\nexpect_class " << (p.expect_class.empty() ? "-" : p.expect_class) << "\nrepeat " << p.repeat << "\n";
+      << "\ngetifaddrs_fail_from " << p.getifaddrs_fail_from << "\nhostname " << hex((const uint8_t *)p.hostname.data(), p.hostname.size()) << "\nexpect_class " << (p.expect_class.empty() ? "-" : p.expect_class) << "\nrepeat " << p.repeat << "\nghosts " << p.ghosts << "\n";
     for (auto &n : p.nics)
         s << "nic " << n.name << " " << hex(n.mac.a, 6) << " " << n.mtu << " " << n.loopback << " " << n.ipv4 << " " << n.has4 << " " << hex(n.ipv6, 16) << " " << n.has6 << " " << n.mtu_ioctl_fails << " " << n.socket_fails << "\n";
     for (auto &e : p.evs) s << "ev " << e.t << " " << e.nic << " " << e.kind << " " << e.a << " " << e.b << " " << e.c << " " << (e.frame.empty() ? "-" : hex(e.frame.data(), e.frame.size())) << "\n";
@@ -103,6 +104,7 @@ static bool w2plan_from_text(const std::string &text, W2Plan &p) {
         else if (k == "malloc_fail_at") ls >> p.malloc_fail_at; else if (k == "sendfail_mask") ls >> p.sendfail_mask; else if (k == "send_short") ls >> p.send_short;
         else if (k == "getifaddrs_fail_from") ls >> p.getifaddrs_fail_from;
         else if (k == "repeat") ls >> p.repeat;
+        else if (k == "ghosts") ls >> p.ghosts;
         else if (k == "hostname") { std::string h; ls >> h; Bytes b = unhex(h); p.hostname.assign(b.begin(), b.end()); }
         else if (k == "expect_class") { ls >> p.expect_class; if (p.expect_class == "-") p.expect_class.clear(); }
         else if (k == "nic") {
@@ -226,6 +228,7 @@ static W2Plan gen_w2(const std::string &prop, uint64_t vseed, uint64_t index) {
             p.evs.push_back(e);
             if (r.chance(0.3)) p.nics[i].loopback = true;
         }
+        if (r.chance(0.4)) p.ghosts = (int)r.range(1, 2);
     }
     if (prop == "C19") { // longer well-formed sessions, handled frame by frame (the oracle compares one pass of the history with three)
         p.p_call = r.chance(0.7) ? 0.0 : 0.3; p.p_mem = 0; p.pct_thread = -1;
@@ -558,6 +561,18 @@ int w2_getifaddrs(struct ifaddrs **out) {
             else { struct sockaddr_in6 *s = (struct sockaddr_in6 *)calloc(1, sizeof(*s)); s->sin6_family = AF_INET6; memcpy(&s->sin6_addr, n.cfg.ipv6, 16); a->ifa_addr = (struct sockaddr *)s; }
             *tail = a; tail = &a->ifa_next;
         }
+    }
+    // links without an address of any kind: entries whose ifa_addr is NULL, inserted at seeded positions (also in front)
+    for (int gi = 0; gi < g_plan.ghosts; gi++) {
+        struct ifaddrs *a = (struct ifaddrs *)calloc(1, sizeof(*a));
+        a->ifa_name = strdup(gi == 0 ? "tun0" : "wg0");
+        a->ifa_flags = (mix64(g_plan.seed, 0x6057 + (uint64_t)gi) & 1) ? (IFF_UP | IFF_RUNNING | IFF_POINTOPOINT) : IFF_POINTOPOINT;
+        a->ifa_addr = nullptr;
+        size_t len = 0; for (struct ifaddrs *c = head; c; c = c->ifa_next) len++;
+        size_t pos = (size_t)(mix64(g_plan.seed, 0x6058 + (uint64_t)gi) % (len + 1));
+        struct ifaddrs **pp = &head;
+        for (size_t i = 0; i < pos && *pp; i++) pp = &(*pp)->ifa_next;
+        a->ifa_next = *pp; *pp = a;
     }
     *out = head;
     g_ifaddrs_outstanding++;
